@@ -283,6 +283,12 @@ def gen_tree(rng, cfg=None):
         ents = manifests[mp]['entries']
         if rng.random() < 0.15:
             ents.append({'tag': 'DIST', 'path': 'dist-%d.tar' % rng.randrange(9), 'c': 'd', 'hashes': ['SHA512']})
+        if rng.random() < 0.12:
+            # a distfile that shares its name with a file listed in the same Manifest
+            # (e.g. once copied into the package directory)
+            same = [e['path'] for e in ents if e.get('tag') in ('DATA', 'MISC', 'EBUILD') and '/' not in e.get('path', '/')]
+            if same:
+                ents.append({'tag': 'DIST', 'path': rng.choice(same), 'c': 'distfile of the same name', 'hashes': ['SHA512']})
         if rng.random() < 0.1:
             ents.append({'tag': 'TIMESTAMP', 'ts': '2020-09-13T12:00:00Z'})
         if rng.random() < 0.5:
